@@ -8,7 +8,8 @@ import (
 )
 
 // ApplyUnifiedDiff applies a `git diff` style patch to the files under dir *in memory* and returns
-// the new contents keyed by absolute file name (for a go/packages overlay). Nothing is written.
+// the new contents keyed by absolute file name (for a go/packages overlay). Nothing is written. A patch
+// may add a file to an existing package; it may not delete one.
 // Hunks are located by their context/removed lines (searched near the recorded position), so a patch
 // keeps applying while unrelated parts of the file change. An error means the patch no longer fits.
 func ApplyUnifiedDiff(dir, diff string) (map[string][]byte, error) {
@@ -27,12 +28,21 @@ func ApplyUnifiedDiff(dir, diff string) (map[string][]byte, error) {
 		oldName := strings.TrimPrefix(strings.TrimPrefix(lines[i], "--- "), "a/")
 		newName := strings.TrimPrefix(strings.TrimPrefix(lines[i+1], "+++ "), "b/")
 		i += 2
-		if newName == "/dev/null" || oldName == "/dev/null" {
-			return nil, fmt.Errorf("patch adds or deletes a file (%s -> %s): not supported", oldName, newName)
+		if newName == "/dev/null" {
+			return nil, fmt.Errorf("patch deletes a file (%s): not supported", oldName)
 		}
 		file := filepath.Join(dir, newName)
 		var src []string
-		if b, ok := out[file]; ok {
+		if oldName == "/dev/null" {
+			// a new file (it must belong to a package that already exists: the overlay adds it there)
+			if _, err := os.Stat(file); err == nil {
+				return nil, fmt.Errorf("patch creates %s, which exists", newName)
+			}
+			if _, err := os.Stat(filepath.Dir(file)); err != nil {
+				return nil, fmt.Errorf("patch creates a file in a new directory (%s): not supported", newName)
+			}
+			src = []string{""}
+		} else if b, ok := out[file]; ok {
 			src = strings.Split(string(b), "\n")
 		} else {
 			b, err := os.ReadFile(file)
@@ -83,6 +93,9 @@ func ApplyUnifiedDiff(dir, diff string) (map[string][]byte, error) {
 				before, after = before[:len(before)-1], after[:len(after)-1]
 			}
 			want := os_ - 1 + offset
+			if want < 0 {
+				want = 0 // the hunk of a new file: @@ -0,0 +1,n @@
+			}
 			pos := findBlock(src, before, want)
 			if pos < 0 {
 				return nil, fmt.Errorf("hunk %q does not apply to %s", hdr, newName)
